@@ -207,6 +207,24 @@ def _shard(shard, col: Collector):
                             for key, msg in check_eq(base, b):
                                 col.violation(key, "eq", msg, {"a": base, "b": b})
         col.sample({"kind": "eq", "a": [first] * n, "b": [first] * (n - 1) + [first + 2e-10], "expected_equal": False}, 1)
+    elif kind == "types":
+        import numpy as np
+        conv = {"int": int, "float": float, "np.float64": np.float64, "np.int64": np.int64, "np.float32": np.float32}
+        for base in itertools.product((-2, -1, 0, 1, 3), repeat=2):
+            for ta, tb in itertools.product(conv, repeat=2):
+                col.case()
+                col.nontrivial(("types", base, ta, tb))
+                a, b = I([conv[ta](v) for v in base]), I([conv[tb](v) for v in base])
+                if not (a == b and b == a):
+                    col.violation("C20:types:eq", "types", "the same point %r given as %s and as %s compares unequal" % (base, ta, tb), {"base": base, "ta": ta, "tb": tb})
+                elif hash(a) != hash(b) or len({a, b}) != 1:
+                    col.violation("C20:types:hash", "types", "the same point %r given as %s and as %s hashes differently" % (base, ta, tb), {"base": base, "ta": ta, "tb": tb})
+        for a, b in (((-0.0, 1.0), (0.0, 1.0)), ((0.0,), (-0.0,))):
+            col.case()
+            x, y = I(a), I(b)
+            if not (x == y) or hash(x) != hash(y):
+                col.violation("C20:types:negative-zero", "types", "%r and %r: equal %r, hashes equal %r" % (a, b, x == y, hash(x) == hash(y)), {"base": a, "ta": "float", "tb": "float"})
+        col.sample({"kind": "one point in different numeric types", "point": [1, -2], "types": list(conv)}, 1)
     elif kind == "moved":
         allv = list(itertools.product(LAT, repeat=2)) + [(v,) for v in LAT]
         for v1 in allv:
@@ -268,6 +286,11 @@ def replay(sub, case):
         return check_eq(t(case["a"]), t(case["b"]))
     if sub == "cont":
         return check_containers([t(v) for v in case["vs"]], t(case["probe"]))
+    if sub == "types":
+        import numpy as np
+        conv = {"int": int, "float": float, "np.float64": np.float64, "np.int64": np.int64, "np.float32": np.float32}
+        a, b = I([conv[case["ta"]](v) for v in case["base"]]), I([conv[case["tb"]](v) for v in case["base"]])
+        return [] if (a == b and hash(a) == hash(b)) else [("C20:types", "point %r as %s / %s" % (case["base"], case["ta"], case["tb"]))]
     if sub == "moved":
         return check_moved(t(case["v1"]), t(case["v2"]), case["how"])
     if sub == "gen":
@@ -280,7 +303,7 @@ def run(tier, seed):
     for n in (1, 2, 3, 4):
         for first in LAT:
             shards.append(("eq", n, first))
-    shards += [("cont", 1), ("cont", 2), ("big",), ("moved",)]
+    shards += [("cont", 1), ("cont", 2), ("big",), ("moved",), ("types",)]
     lat2 = LAT2
     firsts = [(a, b) for a in lat2 for b in lat2]
     for npop in (2, 3, 4):
